@@ -87,7 +87,14 @@ impl InstructionGenerator {
                             self.push(Instruction::Cast(q), pos);
                         }
                     }
-                    Operator::Modulo => self.push(Instruction::Modulo, pos),
+                    Operator::Modulo => {
+                        self.push(Instruction::Modulo, pos);
+                        // at runtime the remainder is narrowed to the smallest whole
+                        // type; bring it back to the type of the expression
+                        if let ExpressionType::BuiltIn(q) = expression_type {
+                            self.push(Instruction::Cast(q), pos);
+                        }
+                    }
                     Operator::Less => self.push(Instruction::Less, pos),
                     Operator::LessOrEqual => self.push(Instruction::LessOrEqual, pos),
                     Operator::Equal => self.push(Instruction::Equal, pos),
